@@ -45,6 +45,7 @@ type opT struct {
 	Op  string `json:"op"`
 	Idx int    `json:"idx"`
 	Who int    `json:"who"`
+	S   []int  `json:"S"` // refresh-subset: the participants
 }
 
 type probeT struct {
@@ -262,6 +263,33 @@ func (w *world) refresh(cur *version, label string) *version {
 	return nv
 }
 
+// refreshSubset: a strict subset of the shareholders (more than t of them) attempts a refresh among themselves.
+// The left-out shareholders would keep shares of the old polynomial: the attempt must not complete at anybody.
+func (w *world) refreshSubset(cur *version, S []int, label string) {
+	if w.scheme != "frost" && w.scheme != "taproot" {
+		return // the other refresh functions take no participant list
+	}
+	mat := map[party.ID]interface{}{}
+	var names []party.ID
+	for _, k := range S {
+		id := w.ids[k-1]
+		mat[id] = protos.CloneConfig(cur.mat[id])
+		names = append(names, id)
+	}
+	w.stats["subset_refresh_attempts"]++
+	r, err := protos.Run(protos.FrostRefresh(mat, []byte("rf-subset")), protos.RunOpts{Seed: w.seed + "/" + label + "/refresh-subset", Sched: sim.NewRng(uint64(len(label)) * 17)})
+	if err != nil {
+		return // refused at start (or failed to construct): fine
+	}
+	w.stats["sessions"]++
+	for _, id := range names {
+		if st, ok := r.Status[id]; ok && st.St == "done" {
+			w.violate("C08", "subset-refresh-completes", fmt.Sprintf("%s n=%d t=%d: a refresh among the strict subset %v of the shareholders completed at %q; the others keep shares of the old polynomial while their public shares were rewritten", w.scheme, len(w.ids), w.t, names, id))
+			return
+		}
+	}
+}
+
 func (w *world) derive(cur *version, label int) *version {
 	idx := childIdx[label][len(cur.path)%2]
 	vs, err := w.views(cur.mat)
@@ -429,7 +457,7 @@ func (w *world) versions(ops []opT) []*version {
 		st.work = cur[len(cur)-1]
 	}
 	for i, op := range ops {
-		stKey += fmt.Sprintf("/%s:%d:%d", op.Op, op.Idx, op.Who)
+		stKey += fmt.Sprintf("/%s:%d:%d:%v", op.Op, op.Idx, op.Who, op.S)
 		if c, ok := w.cache[stKey]; ok {
 			if c == nil {
 				return nil
@@ -443,6 +471,11 @@ func (w *world) versions(ops []opT) []*version {
 		}
 		var nv *version
 		switch op.Op {
+		case "refresh-subset":
+			// an attempt that must be refused: no new version, the working material stays
+			w.refreshSubset(st.work, op.S, stKey)
+			w.cache[stKey] = st.vers
+			continue
 		case "refresh":
 			nv = w.refresh(st.work, stKey)
 		case "derive":
@@ -516,6 +549,36 @@ func (w *world) probe(h histT, vers []*version) {
 			}
 			s = protos.DoernerSign(w.ids[0], w.ids[1], mat[w.ids[0]].(*doerner.ConfigReceiver), mat[w.ids[1]].(*doerner.ConfigSender), msg, []byte("sg"))
 		}
+		if variant == "online" {
+			// the presignature is produced with the oldest version any signer picked (everybody holds it) ...
+			base := len(vers)
+			for _, k := range h.Probe.S {
+				if pick[k] < base {
+					base = pick[k]
+				}
+			}
+			bm := map[party.ID]interface{}{}
+			for _, id := range S {
+				bm[id] = protos.CloneConfig(vers[base-1].mat[id])
+			}
+			pr, err := protos.Run(protos.CmpPresign(bm, S, []byte("ps")), protos.RunOpts{Seed: w.seed + "/presign/" + w.hist, Sched: sim.NewRng(uint64(len(w.hist)) * 29)})
+			w.stats["sessions"]++
+			if err != nil || !pr.AllDone() {
+				w.violate("C01", "honest-session-fails", fmt.Sprintf("cmp presign with consistent material (version %d) did not complete", base))
+				return nil, "presign failed"
+			}
+			pres := map[party.ID]*ecdsa.PreSignature{}
+			for id, x := range pr.Results {
+				pres[id] = x.(*ecdsa.PreSignature)
+			}
+			// ... and every signer then signs with the version it picked
+			r2, err := protos.Run(protos.CmpPresignOnline(mat, pres, S, msg, []byte("on")), protos.RunOpts{Seed: w.seed + "/online/" + w.hist, Sched: sim.NewRng(uint64(len(w.hist)) * 37)})
+			w.stats["sessions"]++
+			if err != nil {
+				return nil, err.Error()
+			}
+			return r2.Status, ""
+		}
 		r, err := protos.Run(s, protos.RunOpts{Seed: w.seed + "/sign/" + w.hist, Sched: sim.NewRng(uint64(len(w.hist)) * 31)})
 		w.stats["sessions"]++
 		if err != nil {
@@ -541,6 +604,12 @@ func (w *world) probe(h histT, vers []*version) {
 	variants := []string{"sign"}
 	if w.scheme == "cmp" && expect == "ok" && len(w.hist)%3 == 0 {
 		variants = append(variants, "presign")
+	}
+	if h.Probe.Kind == "online" {
+		if w.scheme != "cmp" || expect == "refused" {
+			return
+		}
+		variants = []string{"online"}
 	}
 	for _, variant := range variants {
 		st, cerr := runSign(variant)
